@@ -586,6 +586,11 @@ Proof.
   cbn [view_cell uview]. now rewrite decode_bytes.
 Qed.
 
+(* attribute values created and viewed in one byte order are the values the model uses *)
+Theorem attr_view_same_order : forall bo d v, is_float d = false -> safe_val d v = true ->
+  attr_view bo bo d v = vw d true v.
+Proof. intros. unfold attr_view. now apply view_store. Qed.
+
 Lemma read_model_tail : forall d A mask unpack raw,
   read_model d A mask unpack raw
   = read_tail d A mask unpack (do_view d A unpack) (map (vw d (do_view d A unpack)) raw).
